@@ -106,6 +106,9 @@ type World struct {
 	resKeys [4]ecs.ResID
 	slotOpen []bool // query slots open before the current op
 
+	// OnStep, if set, is called at the start of every Exec with the step number.
+	OnStep func(step int)
+
 	// statistics about what the execution exercised (for evidence)
 	Stat Stats
 }
@@ -335,6 +338,9 @@ func (x *World) register(i int, h ecs.Entity) {
 func (x *World) Exec(op model.Op) *Violation {
 	x.Step++
 	x.Stat.Ops++
+	if x.OnStep != nil {
+		x.OnStep(x.Step)
+	}
 	if x.Or.InCb {
 		x.preM = x.M.Clone()
 	}
